@@ -28,8 +28,7 @@ import RioModel.Model.Url
 
 namespace Rio.IntoRoute
 open Rio.Router
-
-abbrev Bytes := Rio.Url.Bytes
+open Rio.Url (Bytes)
 
 /-- `api::IpConstraint`: `InRange(String)` / `NotInRange(String)`. -/
 structure IpSource where
